@@ -315,6 +315,6 @@ func checkC16(replay string) {
 		r.Distinct(fmt.Sprintf("class-%d", i))
 	}
 	r.Obs("distinct_rule_detail", "distinct_nontrivial below counts distinct exhaustive histories + random histories")
-	r.SetDistinctN(int(distinctHist-1)+nRand)
+	r.SetDistinctN(int(distinctHist-1) + nRand)
 	r.Finish()
 }
